@@ -23,7 +23,7 @@ from ..world import Violation
 
 ID = "C09"
 LEVEL = "fault_enumeration"
-BUDGET = {"quick": 150, "thorough": 1500}
+BUDGET = {"quick": 300, "thorough": 1500}
 JOB_TIMEOUT = 240
 MINIMISE_S = {"quick": 60, "thorough": 240}
 RULE = ("a case = one session history: a chain of 1-3 program segments (generated op lists incl. daggered/composite gates, "
@@ -58,13 +58,13 @@ def warm(tier):
 def batches(tier):
     if tier == "quick":
         return [
-            {"name": "nofault-gauss", "runs": 1400, "weight": 3},
-            {"name": "nofault-bosonic", "runs": 500, "weight": 2, "seed_offset": 100000},
-            {"name": "nofault-fock", "runs": 200, "weight": 4, "seed_offset": 200000},
-            {"name": "crash-gauss", "runs": 700, "weight": 3, "seed_offset": 300000},
-            {"name": "crash-bosonic", "runs": 200, "weight": 1, "seed_offset": 400000},
-            {"name": "crash-fock", "runs": 96, "weight": 3, "seed_offset": 500000},
-            {"name": "sweep-gauss", "runs": 64, "weight": 2, "seed_offset": 600000},
+            {"name": "nofault-gauss", "runs": 2800, "weight": 3},
+            {"name": "nofault-bosonic", "runs": 1000, "weight": 2, "seed_offset": 100000},
+            {"name": "nofault-fock", "runs": 400, "weight": 4, "seed_offset": 200000},
+            {"name": "crash-gauss", "runs": 1400, "weight": 3, "seed_offset": 300000},
+            {"name": "crash-bosonic", "runs": 400, "weight": 1, "seed_offset": 400000},
+            {"name": "crash-fock", "runs": 192, "weight": 3, "seed_offset": 500000},
+            {"name": "sweep-gauss", "runs": 128, "weight": 2, "seed_offset": 600000},
         ]
     return [
         {"name": "nofault-gauss", "runs": 30000, "weight": 3},
